@@ -16,6 +16,10 @@ def c04_gen(rng, tier):
     # one long run under heavy eviction pressure (tiny cache, many names): recycled cache entries
     out.append("xe cfg=U=u;E=0;S=-;R=-:0:0:0;C=16384 clients=32 per=%d names=600 seed=%d delay=0 ls=udp" % (
         budget(tier, 8000, 60000), rng.randrange(1 << 30)))
+    # short TTLs and paced clients: cache hits fall into the refresh window, so background prefetches run concurrently
+    # with request handling (their questions must be questions some client asked)
+    out.append("xp cfg=U=u;E=0;S=-;R=-:0:0:0;C=200000 clients=24 per=%d names=40 seed=%d delay=5 ttl=4 pace=8" % (
+        budget(tier, 700, 3000), rng.randrange(1 << 30)))
     return out
 
 
@@ -23,6 +27,8 @@ def c04_oracle(line, res):
     f = gens.fields(res)
     if not res.startswith("total="):
         return None
+    if f.get("upforeign", "0") != "0":
+        return "an upstream received a query for a question no client asked (torn or recycled question): " + f.get("upsample", "")[:200]
     if f.get("wrong") != "0":
         return "a response carried an answer that is not the keyed function of its own question: " + f.get("first", "")[:300]
     if int(f.get("servfail", "0")) > int(f.get("total", "0")) // 3:
